@@ -160,6 +160,54 @@ func c10Struct(f *File, strct string) ([]c10Row, bool) {
 				}
 			}
 		}
+		// a reference to a map / slice field that leaves the method shares its storage with the struct: the field itself,
+		// a slice expression of it, or a local variable that was assigned one of those
+		isRefField := func(name string) bool {
+			ty := fields[name]
+			return strings.HasPrefix(ty, "map[") || strings.HasPrefix(ty, "[]")
+		}
+		alias := map[string]string{}
+		var refOf func(e ast.Expr) string
+		refOf = func(e ast.Expr) string {
+			switch v := e.(type) {
+			case *ast.ParenExpr:
+				return refOf(v.X)
+			case *ast.SliceExpr:
+				return refOf(v.X)
+			case *ast.Ident:
+				return alias[v.Name]
+			case *ast.SelectorExpr:
+				if id, isId := v.X.(*ast.Ident); isId && id.Name == m.recv && isRefField(v.Sel.Name) {
+					return v.Sel.Name
+				}
+			}
+			return ""
+		}
+		for round := 0; round < 3; round++ {
+			ast.Inspect(fd.Body, func(x ast.Node) bool {
+				switch s := x.(type) {
+				case *ast.AssignStmt:
+					if len(s.Lhs) == len(s.Rhs) {
+						for i, l := range s.Lhs {
+							if id, isId := l.(*ast.Ident); isId && id.Name != "_" {
+								if fld := refOf(s.Rhs[i]); fld != "" {
+									alias[id.Name] = fld
+								}
+							}
+						}
+					}
+				case *ast.ValueSpec:
+					if len(s.Names) == len(s.Values) {
+						for i, n := range s.Names {
+							if fld := refOf(s.Values[i]); fld != "" {
+								alias[n.Name] = fld
+							}
+						}
+					}
+				}
+				return true
+			})
+		}
 		ast.Inspect(fd.Body, func(x ast.Node) bool {
 			switch s := x.(type) {
 			case *ast.AssignStmt:
@@ -212,12 +260,8 @@ func c10Struct(f *File, strct string) ([]c10Row, bool) {
 				}
 			case *ast.ReturnStmt:
 				for _, r := range s.Results {
-					if se, isSel := r.(*ast.SelectorExpr); isSel {
-						if id, isId := se.X.(*ast.Ident); isId && id.Name == m.recv {
-							if ty := fields[se.Sel.Name]; strings.HasPrefix(ty, "map[") || strings.HasPrefix(ty, "[]") {
-								m.escapes = append(m.escapes, se.Sel.Name)
-							}
-						}
+					if fld := refOf(r); fld != "" {
+						m.escapes = append(m.escapes, fld)
 					}
 				}
 			}
@@ -239,7 +283,216 @@ func c10Struct(f *File, strct string) ([]c10Row, bool) {
 			return true
 		})
 	}
+	// lock mode at a position: a walk over the statement structure.  A branch that ends in return / continue / break /
+	// panic does not pass its lock state on; merging branches keep the weaker mode; a function literal that is not
+	// called on the spot (go, stored callback) runs at an unknown time: mode 0; a deferred literal runs at the end.
+	modeMaps := map[*meth]map[token.Pos]int{}
+	for _, m := range meths {
+		mm := map[token.Pos]int{}
+		modeMaps[m] = mm
+		recvMu := m.recv + ".mu."
+		var walkStmts func(list []ast.Stmt, mode int) (int, bool)
+		var walkStmt func(st ast.Stmt, mode int) (int, bool)
+		var markExpr func(n ast.Node, mode int)
+		markExpr = func(n ast.Node, mode int) {
+			if n == nil {
+				return
+			}
+			ast.Inspect(n, func(x ast.Node) bool {
+				switch v := x.(type) {
+				case *ast.FuncLit:
+					walkStmts(v.Body.List, 0)
+					return false
+				case *ast.CallExpr:
+					if fl, isLit := v.Fun.(*ast.FuncLit); isLit {
+						for _, a := range v.Args {
+							markExpr(a, mode)
+						}
+						walkStmts(fl.Body.List, mode) // called on the spot
+						return false
+					}
+					mm[v.Pos()] = mode
+					// a literal handed to a call as an argument (sort.Slice comparator, Range callback) is taken to run
+					// during that call; literals that are stored, or started with `go`, are not
+					hasLit := false
+					for _, a := range v.Args {
+						if _, isLit := a.(*ast.FuncLit); isLit {
+							hasLit = true
+						}
+					}
+					if hasLit {
+						markExpr(v.Fun, mode)
+						for _, a := range v.Args {
+							if fl, isLit := a.(*ast.FuncLit); isLit {
+								walkStmts(fl.Body.List, mode)
+							} else {
+								markExpr(a, mode)
+							}
+						}
+						return false
+					}
+				case *ast.SelectorExpr:
+					mm[v.Pos()] = mode
+				}
+				return true
+			})
+		}
+		terminates := func(list []ast.Stmt) bool {
+			if len(list) == 0 {
+				return false
+			}
+			switch l := list[len(list)-1].(type) {
+			case *ast.ReturnStmt, *ast.BranchStmt:
+				return true
+			case *ast.ExprStmt:
+				if c, isCall := l.X.(*ast.CallExpr); isCall && f.Str(c.Fun) == "panic" {
+					return true
+				}
+			}
+			return false
+		}
+		min := func(a, b int) int {
+			if a < b {
+				return a
+			}
+			return b
+		}
+		walkStmt = func(st ast.Stmt, mode int) (int, bool) {
+			switch v := st.(type) {
+			case nil:
+				return mode, false
+			case *ast.BlockStmt:
+				return walkStmts(v.List, mode)
+			case *ast.ExprStmt:
+				if c, isCall := v.X.(*ast.CallExpr); isCall {
+					fn := f.Str(c.Fun)
+					if strings.HasPrefix(fn, recvMu) {
+						mm[c.Pos()] = mode
+						switch fn[len(recvMu):] {
+						case "Lock":
+							return 2, false
+						case "RLock":
+							return 1, false
+						case "Unlock", "RUnlock":
+							return 0, false
+						}
+					}
+				}
+				markExpr(v.X, mode)
+				return mode, false
+			case *ast.DeferStmt:
+				if fl, isLit := v.Call.Fun.(*ast.FuncLit); isLit {
+					walkStmts(fl.Body.List, mode) // approximates "at return": the mode of the defer site
+				} else if !strings.HasPrefix(f.Str(v.Call.Fun), recvMu) {
+					markExpr(v.Call, mode)
+				}
+				return mode, false
+			case *ast.GoStmt:
+				if fl, isLit := v.Call.Fun.(*ast.FuncLit); isLit {
+					for _, a := range v.Call.Args {
+						markExpr(a, mode)
+					}
+					walkStmts(fl.Body.List, 0)
+				} else {
+					markExpr(v.Call, 0)
+				}
+				return mode, false
+			case *ast.IfStmt:
+				if v.Init != nil {
+					mode, _ = walkStmt(v.Init, mode)
+				}
+				markExpr(v.Cond, mode)
+				m1, _ := walkStmts(v.Body.List, mode)
+				t1 := terminates(v.Body.List)
+				m2, t2 := mode, false
+				if v.Else != nil {
+					m2, _ = walkStmt(v.Else, mode)
+					if b, isBlock := v.Else.(*ast.BlockStmt); isBlock {
+						t2 = terminates(b.List)
+					}
+				}
+				switch {
+				case t1 && t2:
+					return mode, true
+				case t1:
+					return m2, false
+				case t2:
+					return m1, false
+				}
+				return min(m1, m2), false
+			case *ast.ForStmt:
+				if v.Init != nil {
+					mode, _ = walkStmt(v.Init, mode)
+				}
+				markExpr(v.Cond, mode)
+				mb, _ := walkStmts(v.Body.List, mode)
+				if v.Post != nil {
+					walkStmt(v.Post, mb)
+				}
+				return min(mode, mb), false
+			case *ast.RangeStmt:
+				markExpr(v.X, mode)
+				mb, _ := walkStmts(v.Body.List, mode)
+				return min(mode, mb), false
+			case *ast.SwitchStmt, *ast.TypeSwitchStmt, *ast.SelectStmt:
+				var body *ast.BlockStmt
+				switch sw := v.(type) {
+				case *ast.SwitchStmt:
+					if sw.Init != nil {
+						mode, _ = walkStmt(sw.Init, mode)
+					}
+					markExpr(sw.Tag, mode)
+					body = sw.Body
+				case *ast.TypeSwitchStmt:
+					body = sw.Body
+				case *ast.SelectStmt:
+					body = sw.Body
+				}
+				res := mode
+				for _, cl := range body.List {
+					var list []ast.Stmt
+					switch c := cl.(type) {
+					case *ast.CaseClause:
+						for _, e := range c.List {
+							markExpr(e, mode)
+						}
+						list = c.Body
+					case *ast.CommClause:
+						if c.Comm != nil {
+							walkStmt(c.Comm, mode)
+						}
+						list = c.Body
+					}
+					mc, _ := walkStmts(list, mode)
+					if !terminates(list) {
+						res = min(res, mc)
+					}
+				}
+				return res, false
+			case *ast.LabeledStmt:
+				return walkStmt(v.Stmt, mode)
+			default:
+				markExpr(st, mode)
+				return mode, false
+			}
+		}
+		walkStmts = func(list []ast.Stmt, mode int) (int, bool) {
+			for _, st := range list {
+				var t bool
+				mode, t = walkStmt(st, mode)
+				if t {
+					return mode, true
+				}
+			}
+			return mode, false
+		}
+		walkStmts(m.fd.Body.List, 0)
+	}
 	modeAt := func(m *meth, pos token.Pos) int {
+		if md, known := modeMaps[m][pos]; known {
+			return md
+		}
+		// not reached by the walk (should not happen): fall back to the source-order scan
 		cur := 0
 		for _, e := range m.lockEvs {
 			if e.pos < pos {
